@@ -21,7 +21,7 @@ from typing import Any, Dict, List, Optional, Set, Tuple
 
 from sa import regexlang, rst, sqlconc, sqlexpr, sqlx
 from sa.checks.c32 import _macro_channels, decision_list, guards_hold, holds
-from sa.core import AnalysisError, Finding, Program, Report, program, src, walk_no_nested
+from sa.core import AnalysisError, Finding, Program, Report, norm_locals, program, src, walk_no_nested
 from sa.e6 import ExternalObj, Interp, Raised
 
 TH = "vtlengine.DataTypes.TimeHandling"
@@ -241,6 +241,12 @@ def run(rep: Report, tier: str) -> None:
     rep.floor("documented Time_Period examples", nex, 10)
     spelling_grid(rep, "R21.3", macros, limits)
     rep.analysed = {"render_cells": ncell, "docs_examples": nex, "formats": FORMATS}
+    rep.rule("R21.5", "the output-representation macro of the chosen format is installed whenever a RESULT has a Time_Period component (shared with C32 R32.4)")
+    from sa.callgraph import callgraph as _cgf
+    from sa.checks.c32 import _macro_availability
+    _macro_availability(P, rep, _cgf(P), "R21.5")
+    rep.rule("R21.6", "Time_Period literals are normalised through TimePeriodHandler on every return of the Python-side normaliser")
+    literal_normaliser(P, rep, "R21.6")
     # ---- R21.4: no memoised renderer / parser of periods whose result depends on the (process-global) output format ----
     rep.rule("R21.4", "memoised functions on the Time_Period path return immutable values that depend only on their arguments")
     from sa import globalsx as _gx
@@ -255,6 +261,37 @@ def run(rep: Report, tier: str) -> None:
     rep.instance("R21.4", "memo-inventory", nontrivial=False, sample=_n)
     rep.assumptions = ["canonical internal form = TimePeriodHandler.__str__ (lowered from the source)", "SQL string functions SUBSTR/LENGTH/LPAD/"
                        "UPPER/CAST/TRY_CAST/|| have standard semantics; period_to_date(year,'D',n) = 1 January + (n-1) days"]
+
+
+def literal_normaliser(P: Program, rep: Report, rule: str) -> None:
+    """A Time_Period literal in the script (cast("2020-M1", time_period)) is normalised in Python by
+    structure_visitor._try_normalize_time_period, a column holding the same text by the SQL macro.  The Python side is canonical by
+    construction only as long as every value it returns comes out of TimePeriodHandler (whose __str__ is the canonical text the macro
+    mirrors): a return of the input itself, or of anything not derived from the handler, lets a literal and a column with the same
+    spelling render differently."""
+    f = P.func("vtlengine.duckdb_transpiler.Transpiler.structure_visitor._try_normalize_time_period")
+    param = [p_ for p_ in f.params][0]
+    derived: Set[str] = set()
+    for _ in range(3):
+        for n in walk_no_nested(f.node):
+            if isinstance(n, (ast.Assign, ast.AnnAssign)) and n.value is not None:
+                if any(isinstance(c, ast.Call) and src(c.func).split(".")[-1] == "TimePeriodHandler" for c in ast.walk(n.value)) \
+                        or any(isinstance(x, ast.Name) and x.id in derived for x in ast.walk(n.value)):
+                    derived |= {t.id for t in (n.targets if isinstance(n, ast.Assign) else [n.target]) if isinstance(t, ast.Name)}
+    nret = 0
+    for r in [n for n in walk_no_nested(f.node) if isinstance(n, ast.Return)]:
+        nret += 1
+        v = r.value
+        ok = v is None or (isinstance(v, ast.Constant) and v.value is None) \
+            or any(isinstance(c, ast.Call) and src(c.func).split(".")[-1] == "TimePeriodHandler" for c in ast.walk(v)) \
+            or any(isinstance(x, ast.Name) and x.id in derived for x in ast.walk(v))
+        rep.instance(rule, f"literal-normaliser/return@{nret}", nontrivial=True, sample={"returns": src(v) if v is not None else None})
+        if not ok:
+            rep.add(Finding(rule, f"{rule}/literal-normaliser/{norm_locals(src(r), f.node)[:50]}", f.module.rel, r.lineno, f.qualname,
+                            f"`{src(r)}` returns a value that does not come out of TimePeriodHandler: a literal such as \"2020-M1\" is then emitted as written while a column holding "
+                            f"the same text is stored as 2020-M01 by the SQL macro, so the two render differently in every non-default output format"))
+    if nret == 0:
+        raise AnalysisError(f"{rule}: _try_normalize_time_period has no return statement")
 
 
 def spelling_grid(rep: Report, rule: str, macros: Dict[str, Any], limits: Dict[str, int], null_clause: bool = False) -> None:
